@@ -891,6 +891,30 @@ func (w *World) checkScannerPanics(r *Report, g *Grammar) {
 	default:
 		r.ok("G-EXPECT", "qname", pos, fmt.Sprintf("every accepted token that contains ':' is name:name, name:*, name:: or name ::; %d malformed continuations panic", npanic))
 	}
+	// (b') no token begins with ':' (a QName is NCName or NCName:NCName; "::" is
+	// consumed together with the axis name before it): a leading or a second
+	// colon is a malformed qualified name
+	{
+		n := 0
+		var acc []string
+		for _, o := range w.scanFrom(g, ':') {
+			if o.Cut {
+				continue
+			}
+			n++
+			if !o.Panicked {
+				acc = append(acc, fmt.Sprintf("%q as %s", o.Text, g.tokName(o.Tok)))
+			}
+		}
+		switch {
+		case n == 0:
+			r.undec("G-EXPECT", "qname-leading-colon", pos, "the scanner could not be followed from ':'")
+		case len(acc) > 0:
+			r.bad("G-EXPECT", "qname-leading-colon", pos, fmt.Sprintf("the scanner accepts a token that begins with ':' (%v): `:a`, `@:id` and the tail of `ns:a:x` are taken as names", dedup(acc)))
+		default:
+			r.ok("G-EXPECT", "qname-leading-colon", pos, "a token cannot begin with ':'")
+		}
+	}
 	// (c) a character that starts no token panics: no path returns normally
 	// without having consumed anything
 	var silent []string
